@@ -436,15 +436,16 @@ def main():
             ip, pos = [], 0
             while pos < n and rng.random() < 0.7:
                 sz = rng.randint(1, min(4, n - pos))
-                ip.append(sorted(pts[pos : pos + sz]))
+                cls = pts[pos : pos + sz]
+                ip.append(sorted(cls) if rng.random() < 0.4 else cls)  # the order inside a class carries no meaning
                 pos += sz
         text = write_gap(rng, gens, names, ip)
         check_gap_text(ck, text, "synthetic", synthetic=(gens, ip))
     # generated puzzles
-    for n in range(2, 6 if not ck.thorough else 9):
+    for n in list(range(2, 6 if not ck.thorough else 9)) + ([11] if not ck.thorough else [10, 11, 12]):
         if ck.enough():
             break
-        check_cube(ck, n)
+        check_cube(ck, n)  # 10..12: layer numbers with two digits
     for n in range(2, 11 if not ck.thorough else 13):
         for params in get_group(n):
             check_rings(ck, params, True)
